@@ -33,7 +33,7 @@ type semSpec struct {
 	rule     string
 	assume   []string
 	extra    func(ctx *Ctx, i int, r *sg.Rng) *sem.Case // optional stratified cases (i counts from 0; nil = stop)
-	args     func(r *sg.Rng) []string
+	args     func(r *sg.Rng, root *sg.Schema) []string
 	intLim   bool
 	parity   bool
 }
@@ -70,7 +70,7 @@ func runSem(ctx *Ctx, sp *semSpec) (*Outcome, error) {
 		root := g.Root()
 		c := &sem.Case{Root: root, Sig: root.Sig()}
 		if sp.args != nil {
-			c.Args = sp.args(r)
+			c.Args = sp.args(r, root)
 		}
 		cases = append(cases, c)
 	}
@@ -95,15 +95,33 @@ func regSem(sp *semSpec) {
 
 func init() {
 	regSem(&semSpec{id: "C02",
-		opts:    sg.Opts{MaxDepth: 3, Descs: true, PAddProps: 0.35, W: map[string]float64{"string": 4, "object": 3, "array": 2.5}},
-		classes: docgen.Classes{"addkey": true, "delopt": true},
+		opts:    sg.Opts{MaxDepth: 3, Descs: true, PAddProps: 0.35, IntLimits: true, W: map[string]float64{"string": 4, "object": 3, "array": 2.5}},
+		classes: docgen.Classes{"addkey": true, "delopt": true, "bound": true},
 		own:     func(d docgen.Doc, mr model.Result) bool { return mr.V == model.Accept },
 		values:  true, byValue: true, addProps: true, defaults: false,
+		args: func(r *sg.Rng, root *sg.Schema) []string {
+			var a []string
+			// anyOf + --min-sized-ints: the merged struct's sized fields reject values another branch admits
+			// (recorded finding anyof-merged, whose defect model does not know sized types) - not combined here
+			hasAnyOf := false
+			root.Walk(func(x *sg.Schema) { hasAnyOf = hasAnyOf || len(x.AnyOf) > 0 })
+			if r.Chance(0.3) && !hasAnyOf {
+				a = append(a, "--min-sized-ints")
+			}
+			if r.Chance(0.3) {
+				a = append(a, "--extra-imports")
+			}
+			if r.Chance(0.2) {
+				a = append(a, "--capitalization", "ID,URL")
+			}
+			return a
+		},
+		intLim: true,
 		nQuick: 500, nThor: 8000, valid: 8, perSite: 2, maxDocs: 40, minDec: 2000,
 		rule: "random schemas over the supported feature space (objects, nesting<=3, arrays, formats, enums, refs, additionalProperties); documents valid by construction (maximal, minimal, random; boundary-seeking) plus model-accepted variants; each is executed by the compiled generated code; deciding observation = verdict ok AND path-wise comparison of json.Marshal(&v) and json.Marshal(v) with the input; distinct_nontrivial = distinct (schema signature, document class) pairs with >=1 deciding observation",
 	})
 	regSem(&semSpec{id: "C03",
-		opts:    sg.Opts{MaxDepth: 3, PNullable: 0.3, PAddProps: 0.35},
+		opts:    sg.Opts{MaxDepth: 3, PNullable: 0.3, PAddProps: 0.35, W: map[string]float64{"map": 2.5}},
 		classes: docgen.Classes{"type": true, "nullok": true, "nullreq": true, "addkey": true},
 		own:     classOwner("type", "nullok", "addkey"),
 		values:  true,
@@ -143,6 +161,7 @@ func init() {
 		opts:    sg.Opts{MaxDepth: 2, PDefault: 0.85, W: map[string]float64{"object": 2.5, "ref": 0.5, "compose": 0}},
 		classes: docgen.Classes{"default": true},
 		own:     classOwner("default", "valid"),
+		extra:   sameNameTwinCase,
 		values:  true, defaults: true,
 		nQuick: 400, nThor: 6000, valid: 3, perSite: 3, maxDocs: 120, minDec: 2000,
 		rule: "optional properties with a default (string, integer, number, boolean, array of scalars, enums) alone/next to required siblings/in nested objects; documents with the key absent, null, present with the zero value, present with another value; decoded field (via re-marshal) must equal the default resp. the document value",
@@ -175,7 +194,7 @@ func init() {
 			return false
 		},
 		modes: []string{"json", "yaml", "yamlblock"}, parity: true,
-		args:   func(r *sg.Rng) []string { return []string{"--extra-imports"} },
+		args:   func(r *sg.Rng, _ *sg.Schema) []string { return []string{"--extra-imports"} },
 		nQuick: 350, nThor: 6000, valid: 4, perSite: 3, maxDocs: 90, minDec: 5000,
 		rule: "schemas over the supported feature space generated with --extra-imports; every valid document and every document violating exactly one required/bound/multipleOf/length/pattern/enum rule is decoded through json.Unmarshal, yaml.Unmarshal of the same text, and yaml.Unmarshal of a block-style YAML rendering; verdicts and json.Marshal of the decoded values must be identical; type-fault documents are out of scope (yaml.v3 coerces scalars, DESIGN §3.13)",
 	})
@@ -205,4 +224,55 @@ func pointerPath(doc any, p string) []any {
 		}
 	}
 	return out
+}
+
+// sameNameTwinCase: two schema files generated into ONE package, each declaring a definition with the same name and
+// the same shape but different defaults (and a same-named nested property object); every document of each file must
+// see the defaults of its own schema. Exercises the generator's "reuse an equal declaration" path.
+func sameNameTwinCase(ctx *Ctx, i int, r *sg.Rng) *sem.Case {
+	if i >= ctx.N(24, 200) {
+		return nil
+	}
+	kinds := r.Perm(5)[:2+r.IntN(3)]
+	mkDef := func(variant int) *sg.Schema {
+		dflt := func(a, b any) any {
+			if variant == 0 {
+				return a
+			}
+			return b
+		}
+		d := &sg.Schema{Types: []string{"object"}}
+		add := func(name string, s *sg.Schema) { d.Props = append(d.Props, sg.Prop{Name: name, S: s}) }
+		for _, k := range kinds {
+			switch k {
+			case 0:
+				add("attempts", &sg.Schema{Types: []string{"integer"}, Min: sg.Fp(0), HasDefault: true, Default: dflt(jsonx.N(3), jsonx.N(10))})
+			case 1:
+				add("backoff", &sg.Schema{Types: []string{"string"}, HasEnum: true, Enum: []any{"linear", "exponential"}, HasDefault: true, Default: dflt("linear", "exponential")})
+			case 2:
+				add("codes", &sg.Schema{Types: []string{"array"}, Items: &sg.Schema{Types: []string{"integer"}}, HasDefault: true, Default: dflt([]any{jsonx.N(500)}, []any{jsonx.N(502), jsonx.N(503)})})
+			case 3:
+				add("verbose", &sg.Schema{Types: []string{"boolean"}, HasDefault: true, Default: dflt(true, false)})
+			case 4:
+				add("label", &sg.Schema{Types: []string{"string"}, MaxLen: 8, HasDefault: true, Default: dflt("alpha", "beta")})
+			}
+		}
+		add("plain", &sg.Schema{Types: []string{"integer"}})
+		return d
+	}
+	// the two variants must be generated with the same property choice: reuse the PRNG state
+	d0 := mkDef(0)
+	d1 := mkDef(1)
+	mkRoot := func(d *sg.Schema) *sg.Schema {
+		return &sg.Schema{Types: []string{"object"}, DefsKey: "definitions",
+			Props: []sg.Prop{{Name: "retry", S: &sg.Schema{Ref: "#/definitions/Retry", Target: d}}, {Name: "name", S: &sg.Schema{Types: []string{"string"}}}},
+			Defs:  []sg.Prop{{Name: "Retry", S: d}}}
+	}
+	a := &sem.Case{Root: mkRoot(d0), Sig: fmt.Sprintf("same-name-twin/a/%s", d0.Sig())}
+	b := &sem.Case{Root: mkRoot(d1), Sig: fmt.Sprintf("same-name-twin/b/%s", d1.Sig())}
+	if i%2 == 1 {
+		a, b = b, a
+	}
+	a.Group = []*sem.Case{b}
+	return a
 }
